@@ -547,8 +547,15 @@ type pathEnd struct {
 // meets bad()==true first or reaches a Return first. Paths ending in Panic are
 // ignored when panicOK. Returns the first failing end, or nil.
 func everyPathFrom(from ssa.Instruction, hit, bad func(ssa.Instruction) bool, panicOK bool) *pathEnd {
-	b := from.Block()
-	idx := indexOf(from)
+	return everyPathAt(from.Block(), indexOf(from)+1, hit, bad, panicOK)
+}
+
+// everyPathEntry: every path from the function entry (first instruction included).
+func everyPathEntry(fn *ssa.Function, hit, bad func(ssa.Instruction) bool, panicOK bool) *pathEnd {
+	return everyPathAt(fn.Blocks[0], 0, hit, bad, panicOK)
+}
+
+func everyPathAt(b *ssa.BasicBlock, idx0 int, hit, bad func(ssa.Instruction) bool, panicOK bool) *pathEnd {
 	type pos struct {
 		b *ssa.BasicBlock
 	}
@@ -588,7 +595,7 @@ func everyPathFrom(from ssa.Instruction, hit, bad func(ssa.Instruction) bool, pa
 		}
 		return true
 	}
-	scan(b, idx+1)
+	scan(b, idx0)
 	return fail
 }
 
@@ -780,4 +787,36 @@ func returnValues(r *ssa.Return) []ssa.Value {
 		}
 	}
 	return out
+}
+
+// infeasible: the facts contain the same comparison of the same SSA values
+// (or equal constants) with both outcomes — no execution takes such a path.
+func infeasible(facts []Fact) bool {
+	same := func(a, b ssa.Value) bool {
+		if a == b {
+			return true
+		}
+		ca, ok1 := a.(*ssa.Const)
+		cb, ok2 := b.(*ssa.Const)
+		if ok1 && ok2 && ca.Value != nil && cb.Value != nil {
+			return ca.Value.ExactString() == cb.Value.ExactString() && types.Identical(ca.Type(), cb.Type())
+		}
+		return false
+	}
+	for i, f := range facts {
+		op1, x1, y1, ok := f.Cmp()
+		if !ok {
+			continue
+		}
+		for _, g := range facts[i+1:] {
+			op2, x2, y2, ok := g.Cmp()
+			if !ok {
+				continue
+			}
+			if same(x1, x2) && same(y1, y2) && op2 == negOp[op1] {
+				return true
+			}
+		}
+	}
+	return false
 }
